@@ -268,6 +268,25 @@ class Anchors:
                         out.append(st.target.id)
         return out
 
+    @cached_property
+    def init_closure(self) -> list:
+        """Context.__init__ plus the Context helper methods that run only as part of it
+        (every call site of the helper lies inside this closure)."""
+        init = self.ctx_method("__init__")
+        closure = [init]
+        changed = True
+        while changed:
+            changed = False
+            for f in list(closure):
+                for call, c in self.a.func_calls(f):
+                    if c.kind == "func" and c.func.cls is self.Context and c.func not in closure:
+                        g = c.func
+                        callers = [h for h in self.p.all_functions() for _, cc in self.a.func_calls(h) if cc.kind == "func" and cc.func is g]
+                        if callers and all(h in closure for h in callers):
+                            closure.append(g)
+                            changed = True
+        return closure
+
     # ---------------------------------------------------------------- dispatch sites
     def dispatch_calls(self, f: FuncInfo) -> list:
         """ast.Call nodes in f that resolve to Signal.dispatch."""
